@@ -301,6 +301,7 @@ void check_dispositions(Case &C, const char *after) {
                 // put it back so that later cases of this process start from a sane state
                 ::sigaction(g_signo[si], &C.disp[si].snap, nullptr);
             }
+            else C.failed_enable_destroyed[si] = false;
             if (C.prev_cnt[si] > 0) {
                 vh::counter("last_unsubscribe_restore_checked");
                 vh::counter(std::string("restore_checked_old_") + dispname[C.disp[si].kind]);
@@ -512,6 +513,19 @@ void check_after_deliveries(Case &C, const std::vector<Delivery> &ds, const std:
     }
 }
 
+//! true when raising the signal now would run the default action (terminate the process) although the model has subscribers
+bool fatal_to_raise(Case &C, int si) {
+    if (model_count(C, si) == 0) return false;
+    struct sigaction cur;
+    if (::sigaction(g_signo[si], nullptr, &cur) != 0) return false;
+    void *h = (cur.sa_flags & SA_SIGINFO) ? (void *)cur.sa_sigaction : (void *)cur.sa_handler;
+    if (h != (void *)SIG_DFL) return false;
+    fail(C, "subscribe/default-disposition-while-an-enabled-event-is-subscribed",
+         vh::fmt("%d enabled event(s) are subscribed to %s(%d) but the process disposition is SIG_DFL: a delivery would terminate the process "
+                 "instead of reaching them (not raised)", model_count(C, si), g_signame[si], g_signo[si]));
+    return true;
+}
+
 void do_raise(Case &C, const Delivery &d) {
     int signo = g_signo[d.si];
     auto fire = [signo, &d] {
@@ -543,6 +557,7 @@ void deliver(Case &C, const std::vector<Delivery> &ds, Pending *defer = nullptr)
         for (int si = 0; si < NSIG_USED; ++si)
             was[k][si] = C.evs[k]->alive && C.evs[k]->enabled && C.evs[k]->has(si);
     C.reaction_may_overlap_handler = false;
+    for (auto &d : ds) if (fatal_to_raise(C, d.si)) return;
     for (auto &d : ds) {
         std::set<int> loops_hit; int receivers = 0;
         for (size_t k = 0; k < ne; ++k) {
@@ -647,15 +662,22 @@ void continue_in_fresh_process(uint64_t idx) {
     vh::finish();
     fflush(stdout); fflush(stderr);
     uint64_t next = idx + 1, end = a.first + a.count;
+    long budget = a.num("refail-budget", 25);
     if (next >= end) _exit(0);
+    if (budget <= 0) {
+        // a tree on which case after case fails: the rest of this shard is left unexplored (the run reports violations anyway)
+        fprintf(stderr, "c04: %llu cases of this shard left unexplored after repeated violations\n", (unsigned long long)(end - next));
+        _exit(0);
+    }
     std::vector<std::string> args;
     for (int i = 0; i < g_argc; ++i) {
         std::string k = g_argv[i];
-        if ((k == "--first" || k == "--count") && i + 1 < g_argc) { ++i; continue; }
+        if ((k == "--first" || k == "--count" || k == "--refail-budget") && i + 1 < g_argc) { ++i; continue; }
         args.push_back(k);
     }
     args.push_back("--first"); args.push_back(std::to_string(next));
     args.push_back("--count"); args.push_back(std::to_string(end - next));
+    args.push_back("--refail-budget"); args.push_back(std::to_string(budget - 1));
     std::vector<char *> av;
     for (auto &x : args) av.push_back(const_cast<char *>(x.c_str()));
     av.push_back(nullptr);
